@@ -316,7 +316,7 @@ func runHist(s histScn) (line string) {
 		}
 		for i, w := range s.ws {
 			w := w
-			f.addWatcher(wspec{id: i, maxBatch: w.maxBatch, maxAttempts: w.maxAttempts, mot: time.Duration(w.mot)}, func(wid int, objs []int, atts []uint32) {
+			f.addWatcher(wspec{id: i, maxBatch: w.maxBatch, maxAttempts: w.maxAttempts, mot: time.Duration(w.mot)}, func(wid int, objs []int, atts []uint32, reread func() []int) {
 				mu.Lock()
 				bseq++
 				b := bseq
@@ -346,7 +346,7 @@ func runHist(s histScn) (line string) {
 				e := ended
 				mu.Unlock()
 				if !e {
-					lg.add("cbret:%d", b)
+					lg.add("cbret:%d:%s", b, plus(reread()))
 				}
 			})
 		}
